@@ -318,6 +318,10 @@ func ruleSummaryByBuilder(c *Ctx, rule string) {
 	c.R.Rule(c.R.Property+"."+rule, 3, "every method summary includes TRACE when configured and has its rendered Allow entry: it is computed by a summary builder on every path")
 	// builders: TRACE clause + memo
 	for _, b := range []*ssa.Function{a.NodeSummaryBuilder, a.TreeSummaryBuilder} {
+		if b == nil {
+			c.R.Add(rule, "pkg:tree", "builder:node-summary/exists", "-", false, "no node method computes the method summary from the handler map: that every summary carries TRACE when configured and has its rendered entry cannot be established")
+			continue
+		}
 		var traceStores []ssa.Instruction
 		an.AllInstrs(b, func(in ssa.Instruction) {
 			if _, field, val, ok := fieldStore(in, a.NodeT); ok && field == a.FSummary {
